@@ -1022,7 +1022,22 @@ public:
     }
 
     region_domain_impl::region_info rhs_rgn_info = m_rgn_env.at(rhs_rgn);
-    m_rgn_env.set(lhs_rgn, rhs_rgn_info);
+    {
+      // The references created in lhs_rgn before the copy can still
+      // be used to access it: they must be counted together with the
+      // references of rhs_rgn. Otherwise, a store through one of them
+      // is a strong update that wipes out the copied contents.
+      region_domain_impl::region_info lhs_rgn_info(rhs_rgn_info);
+      const small_range &old_lhs_refs = m_rgn_env.at(lhs_rgn).refcount_val();
+      if (!old_lhs_refs.is_zero()) {
+        if (rhs_rgn_info.refcount_val().is_zero()) {
+          lhs_rgn_info.refcount_val() = old_lhs_refs;
+        } else {
+          lhs_rgn_info.refcount_val() = small_range::oneOrMore();
+        }
+      }
+      m_rgn_env.set(lhs_rgn, lhs_rgn_info);
+    }
 
     if (crab_domain_params_man::get().region_allocation_sites()) {
       m_alloc_env.set(lhs_rgn, m_alloc_env.at(rhs_rgn));
